@@ -2,7 +2,7 @@
 (* impl -> spec for C02: every successful build observed on the real assembler must be a   *)
 (* fixed point of the reference semantics under its own final symbol values.                *)
 (* Record: [id, prog, pc0, ok, syms: <<[path, ty, kind, val]>>, segs: <<[name, start, end,   *)
-(*          pc, bytes]>>, vice: <<[addr, path]>>, hasVice]                                    *)
+(*          pc, bytes]>>, vice: <<[addr, path]>>, hasVice, files: [name |-> statements]]       *)
 EXTENDS Asm, Json, IOUtils
 
 Rec == ndJsonDeserialize(IOEnv.TRACE)
@@ -37,9 +37,9 @@ Mismatch(r, sg, R) ==
 Judge(r) ==
   IF ~r.ok THEN <<>>                        \* C02 speaks about successful builds only
   ELSE LET sg == Sigma(r)
-           m1 == Mismatch(r, sg, Ref(r.prog, sg, r.pc0, TRUE)) IN
+           m1 == Mismatch(r, sg, RefF(r.prog, r.files, sg, r.pc0, TRUE)) IN
        IF m1 = "" THEN <<>>
-       ELSE LET m2 == Mismatch(r, sg, Ref(r.prog, sg, r.pc0, FALSE)) IN     \* .align may pad 0 at an aligned pc
+       ELSE LET m2 == Mismatch(r, sg, RefF(r.prog, r.files, sg, r.pc0, FALSE)) IN     \* .align may pad 0 at an aligned pc
             IF m2 = "" THEN <<>> ELSE <<V(r.id, "violation", "", m1)>>
 
 Init == l = 1 /\ bad = <<>>
